@@ -346,11 +346,17 @@ Lemma set_ff_id s : set_ff s (ff s) = s. Proof. by destruct s. Qed.
 Lemma fsize_pos esz f l : 0 < esz -> ents f = l -> junk f = 0 -> l <> [] -> 0 < fsize esz f.
 Proof. intros He Hl Hj Hne. unfold fsize, flen. rewrite Hl, Hj. pose proof (alen_pos l Hne). unfold alen in *. nia. Qed.
 
+Lemma trim_id esz f : 0 < esz -> junk f = 0 -> trim esz f = f.
+Proof.
+  intros He Hj. unfold trim, fsize. rewrite Hj, Z.add_0_r, Z.mod_mul by lia. reflexivity.
+Qed.
+
 Lemma recover_id g gfh s a : Inv s a -> recover g gfh s = Some s.
 Proof.
   intros HI. unfold recover.
   assert (Hb : recover_block g s = Some s).
-  { unfold recover_block. destruct HI.
+  { unfold recover_block. rewrite trim_id by (unfold BSZ; lia || by destruct HI). rewrite set_bf_id.
+    cbv zeta. destruct HI.
     pose proof (fsize_pos BSZ (bf s) (bl a) ltac:(unfold BSZ; lia) i_be0 i_bj0 i_bne0) as Hp.
     replace (fsize BSZ (bf s) =? 0) with false by (symmetry; apply Z.eqb_neq; lia).
     assert (HI : Inv s a) by (constructor; assumption).
@@ -362,7 +368,8 @@ Proof.
     unfold u32. rewrite Z.mod_small by (unfold U32, LIMIT in *; lia).
     rewrite (bread s a HI). rewrite <- last_at_h by (assumption || lia). rewrite E. cbn [rd_tok].
     by rewrite Z.eqb_refl. }
-  rewrite Hb. unfold recover_filter. destruct HI.
+  rewrite Hb. unfold recover_filter. rewrite trim_id by (unfold FSZ; lia || by destruct HI). rewrite set_ff_id.
+  cbv zeta. destruct HI.
   pose proof (fsize_pos FSZ (ff s) (fl a) ltac:(unfold FSZ; lia) i_fe0 i_fj0 i_fne0) as Hp.
   replace (fsize FSZ (ff s) =? 0) with false by (symmetry; apply Z.eqb_neq; lia).
   assert (HI : Inv s a) by (constructor; assumption).
@@ -616,11 +623,10 @@ Proof.
   destruct (at_h_is_Some (bl a) (L - 1 - n)) as [xp Hxp]; [fold L; lia|fold L; lia|].
   rewrite Hxp. cbn [rd_tok].
   set (gone := map rd_tok (map (λ i : nat, fread BSZ (bf s) (L - 1 - n + Z.of_nat i)) (seq 1 (Z.to_nat n)))).
-  cbn [apply_steps apply_step]. rewrite Hfs.
+  cbn [run_steps step_fails apply_step bf ff idx btip ftip].
   assert (Hflen : flen (bf s) = L) by (unfold flen; by rewrite i_be0).
-  replace (L * BSZ) with (fsize BSZ (bf s)) by exact Hfs.
   rewrite ftruncate_entries by (try assumption; unfold BSZ; lia).
-  cbn [fmap option_fmap option_map set_bf bf ff idx btip ftip fst snd]. rewrite Hflen, i_be0. fold keep.
+  cbn [fmap option_fmap option_map set_bf bf ff idx btip ftip fst snd run_steps]. rewrite Hflen, i_be0. fold keep.
   assert (Hlast : last keep = Some xp).
   { assert (Hkl : alen keep = L - n) by (unfold keep; apply alen_take; fold L; lia).
     rewrite last_at_h; [|intros E; rewrite E in Hkl; unfold alen in Hkl; cbn in Hkl; lia|lia].
@@ -638,7 +644,7 @@ Proof.
       + rewrite (bread s a HI0). replace (L - 1 - n + Z.of_nat (Z.to_nat (h - (L - 1 - n)))) with h by lia.
         by rewrite Hat.
       + apply elem_of_seq. lia. }
-  constructor; cbn [bf ff idx btip ftip bl fl ents junk]; try assumption; try reflexivity.
+  constructor; cbn [set_bf set_ff bf ff idx btip ftip bl fl ents junk]; try assumption; try reflexivity.
   - by apply NoDup_take_Z.
   - intros x h. rewrite del_entries_lookup. unfold keep. rewrite at_h_take by (fold L; lia).
     destruct (decide (x ∈ gone)) as [Hin|Hnin].
@@ -672,11 +678,10 @@ Proof.
   replace (u32 (L - 1 - 1)) with (L - 2) by (unfold u32; rewrite Z.mod_small; unfold U32, LIMIT in *; lia).
   rewrite (fread_f s a HI0).
   destruct (at_h_is_Some (fl a) (L - 2)) as [xp Hxp]; [fold L; lia|fold L; lia|].
-  rewrite Hxp. cbn [rd_tok apply_steps apply_step].
+  rewrite Hxp. cbn [rd_tok run_steps step_fails apply_step bf ff idx btip ftip].
   assert (Hflen : flen (ff s) = L) by (unfold flen; by rewrite i_fe0).
-  replace (fsize FSZ (ff s) - 1 * FSZ) with (fsize FSZ (ff s) - 1 * FSZ) by reflexivity.
   rewrite ftruncate_entries by (try assumption; try (unfold FSZ; lia); rewrite Hflen; lia).
-  cbn [fmap option_fmap option_map set_ff bf ff idx btip ftip fst snd]. rewrite Hflen, i_fe0. fold keep.
+  cbn [fmap option_fmap option_map set_ff bf ff idx btip ftip fst snd run_steps]. rewrite Hflen, i_fe0. fold keep.
   assert (Hkl : alen keep = L - 1) by (unfold keep; apply alen_take; fold L; lia).
   assert (Hlast : last keep = Some xp).
   { rewrite last_at_h; [|intros E; rewrite E in Hkl; unfold alen in Hkl; cbn in Hkl; lia|lia].
@@ -684,7 +689,7 @@ Proof.
     replace (L - 1 - 1 <? L - 1) with true by (symmetry; apply Z.ltb_lt; lia).
     rewrite <- Hxp. f_equal. lia. }
   split; [by rewrite Hlast|].
-  constructor; cbn [bf ff idx btip ftip bl fl ents junk]; try assumption; try reflexivity.
+  constructor; cbn [set_bf set_ff bf ff idx btip ftip bl fl ents junk]; try assumption; try reflexivity.
   - intros E. by rewrite E in Hlast.
   - rewrite Hkl. lia.
   - rewrite Hkl. rewrite <- Hnt. f_equal. lia.
